@@ -26,13 +26,13 @@
 (*   last[o]  the bytes o's last encode appended, while o is unchanged     *)
 (*   part[b]  b holds a strict prefix of a valid encoding (C11)            *)
 (***************************************************************************)
-EXTENDS Codec, SequencesExt
+EXTENDS Prims, SequencesExt
 
 Trace == ndJsonDeserialize(IOEnv.VERIF_TRACE)
 Prop == IOEnv.VERIF_PROP
 
-VARIABLES l, hist, ub, held, q, lead, F, G, src, last, part, ref, bad, nchk
-vars == <<l, hist, ub, held, q, lead, F, G, src, last, part, ref, bad, nchk>>
+VARIABLES l, hist, ub, held, q, lead, F, G, src, last, part, ref, big, bad, nchk
+vars == <<l, hist, ub, held, q, lead, F, G, src, last, part, ref, big, bad, nchk>>
 
 Get(f, k, d) == IF k \in DOMAIN f THEN f[k] ELSE d
 Put(f, k, x) == [y \in DOMAIN f \cup {k} |-> IF y = k THEN x ELSE f[y]]
@@ -48,6 +48,7 @@ Init ==
   /\ ub = Empty /\ held = Empty /\ q = Empty /\ lead = Empty
   /\ F = Empty /\ G = Empty /\ src = Empty /\ last = Empty /\ part = Empty
   /\ ref = [bytes |-> <<>>, canon |-> FALSE]
+  /\ big = Empty
   /\ bad = <<>> /\ nchk = 0
 
 ---------------------------------------------------------------------------
@@ -238,11 +239,66 @@ PeekClauses(e) ==
   (* C16 / C06: the buffer is what the spec says it is - mutating objects changed no bytes *)
   IF (P("C16") \/ P("C07")) /\ e.post # UB(e.b) THEN {<<IF P("C07") /\ Prop # "ALL" THEN "C07.leftover" ELSE "C16.bytes-changed", "none">>} ELSE {}
 
+(***************************************************************************)
+(* Codec primitives (op "prim") and checksum services (op "calc").         *)
+(***************************************************************************)
+IntOnlyFns == {"WriteBasicType", "ReadBasicType", "WriteBasicTypeList", "ReadBasicTypeList", "WriteString", "ReadString",
+               "WriteStringList", "ReadStringList", "WriteObjectList", "ReadObjectList"}
+FixedFns == {"WriteFixedString", "WriteFixedStringWithPadding", "ReadFixedString", "ReadFixedStringTrimPadding",
+             "WriteFixedStringList", "WriteFixedStringListWithPadding", "ReadFixedStringList", "ReadFixedStringListTrimPadding", "Padding"}
+
+(* the cutset-of-a-rune trim the pinned code performed: pad >= 0x80 is     *)
+(* not stripped as a byte (named deviation of C13)                         *)
+PadIsHigh(a) == "pad" \in DOMAIN a /\ a.pad >= 128
+
+PrimClauses(e) ==
+  LET a == e.args
+      fn == e.fn
+      pre == UB(e.b)
+  IN
+  IF fn \in Writers
+  THEN LET W == PWrite(fn, a)
+           app == IF e.big \/ ~IsPrefixOf(pre, e.post) THEN <<>> ELSE Drop(e.post, Len(pre))
+       IN IF ~W.ok
+          THEN (IF P("C18") /\ W.why = "prefix-overflow" /\ e.res # "err" THEN {<<"C18.primitive-wrap", "Prefix_Wrap">>} ELSE {})
+          ELSE IF e.big THEN (IF P("C18") /\ e.res # "ok" THEN {<<"C18.primitive-at-limit", "none">>} ELSE {})
+          ELSE IF e.res = "ok" /\ app = W.bytes THEN {}
+          ELSE LET orderOnly == e.res = "ok" /\ OnlyByteOrderDiffers(app, W.bytes, W.mask)
+                   kinds == IF orderOnly THEN ReversedKinds(app, W.bytes, W.mask) ELSE {}
+                   odev == IF kinds = {KListElem} THEN "ListLE_ElementsBE" ELSE IF kinds = {KObjCount} THEN "ObjListLE_CountBE" ELSE "none"
+               IN (IF P("C03") /\ orderOnly THEN {<<"C03.primitive-byte-order", odev>>} ELSE {})
+                  \cup (IF P("C13") /\ fn \in FixedFns /\ ~orderOnly THEN {<<"C13.write", "none">>} ELSE {})
+                  \cup (IF P("C18") /\ ~orderOnly THEN {<<"C18.primitive-at-limit", "none">>} ELSE {})
+  ELSE LET R == PRead(fn, a, pre)
+           used == Len(pre) - Len(e.post)
+           agree == e.res = "ok" /\ e.ret = R.ret /\ IsSuffixOf(e.post, pre) /\ used = R.used
+       IN (IF P("C13") /\ fn \in FixedFns /\ R.ok /\ ~agree
+           THEN {<<"C13.read", IF PadIsHigh(a) THEN "Trim_RuneCutset" ELSE "none">>} ELSE {})
+          \cup (IF P("C03") /\ fn \in IntOnlyFns /\ R.ok /\ ~agree THEN {<<"C03.primitive-read", "none">>} ELSE {})
+          \cup (IF P("C18") /\ R.ok /\ ~agree THEN {<<"C18.read-back", "none">>} ELSE {})
+          \cup (IF P("C11") /\ ~R.ok /\ R.why = "short" /\ e.res # "err" THEN {<<"C11.primitive-short-read", "none">>} ELSE {})
+          \cup (IF P("C09") /\ e.res \notin {"ok", "err"} THEN {<<"C09.primitive-outcome", "none">>} ELSE {})
+          \cup (IF P("C10") /\ e.alloc >= 0 /\ e.alloc > 16384 + 64 * e.inlen THEN {<<"C10.primitive-alloc", "Reserve_BeforeCheck">>} ELSE {})
+
+CalcClauses(e) ==
+  IF ~P("C14") THEN {}
+  ELSE LET isBig == e.big
+           runs == Get(big, e.b, <<>>)
+           sumAlg == e.alg \in {"SSE_BIN", "SZSE_BIN"}
+           want == IF ~isBig THEN Alg(e.alg, UB(e.b))
+                   ELSE IF sumAlg THEN Digits(Sum8Runs(runs), 4)
+                   ELSE Alg(e.alg, Expand(runs))
+           dev == IF e.alg = "SZSE_BIN" /\ Len(e.out) = 4 /\ e.out[1] = 255 THEN "SzseSum_Int32" ELSE "none"
+       IN (IF e.res # "ok" \/ e.out # want THEN {<<"C14.value", dev>>} ELSE {})
+          \cup (IF (~isBig /\ e.post # UB(e.b)) \/ (isBig /\ ~e.same) THEN {<<"C14.buffer-untouched", "none">>} ELSE {})
+
 Clauses(e) ==
   CASE e.op = "encode" -> EncodeClauses(e)
     [] e.op = "decode" -> DecodeClauses(e)
     [] e.op = "observe" -> ObserveClauses(e)
     [] e.op = "peek" -> PeekClauses(e)
+    [] e.op = "prim" -> PrimClauses(e)
+    [] e.op = "calc" -> CalcClauses(e)
     [] OTHER -> {}
 
 ---------------------------------------------------------------------------
@@ -253,7 +309,7 @@ RECURSIVE QBytesR(_, _)
 QBytesR(qs, i) == IF i = 0 THEN 0 ELSE Len(qs[i].bytes) + QBytesR(qs, i - 1)
 QBytes(qs) == QBytesR(qs, Len(qs))
 
-BufOps == {"encode", "decode", "next", "reset", "write", "load", "cut", "scribble", "peek", "calc"}
+BufOps == {"encode", "decode", "next", "reset", "write", "load", "cut", "scribble", "peek", "calc", "prim", "fill"}
 
 Step(e) ==
   LET b == e.b
@@ -292,6 +348,7 @@ Step(e) ==
   /\ last' = CASE encOK -> Put(last, o, appended)
                [] e.op \in {"decode", "new", "newzero", "copy", "mutate", "encode"} /\ o \in DOMAIN last -> Del(last, o)
                [] OTHER -> last
+  /\ big' = IF e.op = "fill" THEN Put(big, b, e.args.runs) ELSE big
   /\ ref' = IF encOK /\ e.tag = "reference" THEN [bytes |-> appended, canon |-> Canonical(e.t, v)] ELSE ref
   /\ part' = CASE e.op = "cut" -> Put(part, b, ref.canon /\ Len(e.post) < Len(ref.bytes) /\ IsPrefixOf(e.post, ref.bytes))
                [] e.op \in {"encode", "write", "load", "reset", "scribble", "next", "decode"} /\ b \in DOMAIN part -> Put(part, b, FALSE)
@@ -301,6 +358,7 @@ ResetHistory ==
   /\ ub' = Empty /\ held' = Empty /\ q' = Empty /\ lead' = Empty
   /\ F' = Empty /\ G' = Empty /\ src' = Empty /\ last' = Empty /\ part' = Empty
   /\ ref' = [bytes |-> <<>>, canon |-> FALSE]
+  /\ big' = Empty
 
 Next ==
   /\ l <= Len(Trace)
